@@ -115,6 +115,12 @@ pub fn make_case(prop: &str, seed: u64) -> Case {
                 }
                 "C16" => {
                     case.gen.send_then_purge_chance = 0.5;
+                    // what is reported must be what is stored, also when the stored bytes are ciphertext
+                    if rng.chance(0.2) {
+                        use base64::Engine;
+                        case.knobs.encryption = true;
+                        case.knobs.encryption_key = base64::engine::general_purpose::STANDARD.encode(rng.bytes(32));
+                    }
                     // repeated ids under deduplication: what is dropped must not be counted
                     case.knobs.dedup = rng.chance(0.3);
                     if case.knobs.dedup {
@@ -308,6 +314,7 @@ pub fn make_case(prop: &str, seed: u64) -> Case {
             };
             if prop == "C10" {
                 mix.unauth = 3;
+                case.gen.pat_reuse_chance = 0.3;
             }
             if prop == "C09" {
                 mix.unauth = 6;
